@@ -180,8 +180,9 @@ def coll_layer(seed: int, n_cases: int) -> Dict[str, Any]:
         for p in parts:
             shapes.update(tuple(s) for s in p["shapes"])
             findings += p["findings"]
-        return {"cases": sum(p["n"] for p in parts), "ops": sum(p["ops"] for p in parts), "findings": fw.pick(findings, 40),
-                "n_findings": sum(p["n_findings"] for p in parts), "shapes": sorted(shapes), "sample": parts[0]["sample"],
+        return {"cases": sum(p["n"] for p in parts), "ops": sum(p["ops"] for p in parts), "lookups": sum(p["lookups"] for p in parts),
+                "findings": fw.pick(findings, 40),
+                "n_findings": sum(p["n_findings"] for p in parts), "shapes": sorted(shapes, key=str), "sample": parts[0]["sample"],
                 "wall_s": round(time.time() - t0, 2)}
 
     return fw.cached("coll", {"seed": seed, "n": n_cases}, compute)
@@ -259,6 +260,11 @@ def generic_layer(name: str, module: str, seed: int, n_cases: int, mult: int, ex
 def timed_layer(seed: int, n_cases: int) -> Dict[str, Any]:
     """request files and price tables through the real pre-step update functions (C11)"""
     return generic_layer("timed", "timed", seed, n_cases, 49979687)
+
+
+def layout_layer(seed: int, n_cases: int) -> Dict[str, Any]:
+    """generated vehicles / stations / bases / fleets files through the real initialisation (C02 at time zero)"""
+    return generic_layer("layout", "layout", seed, n_cases, 32452843)
 
 
 def shift_layer(seed: int, n_cases: int) -> Dict[str, Any]:
